@@ -27,6 +27,7 @@ macro_rules! registry {
 
 registry! {
     c01::C01,
+    c06::C06,
     c07::C07,
     c08::C08,
     c09::C09,
